@@ -42,7 +42,8 @@ def _on_alarm(signum, frame):
 EVAL_TIMEOUT_S = 4.0
 
 
-def run_one(src: str, runner: str, bindings: Dict[str, Any], package: Optional[str]) -> str:
+def run_one(src: str, runner: str, bindings: Dict[str, Any], package: Optional[str],
+            annots: Optional[Dict[str, Any]] = None) -> str:
     """value canon | `err` (CELEvalError from evaluate) | `parse-error` | `CONSTRUCT <cls>` (program() failed)
     | `EXC <cls>` (anything else escaping evaluate) | `TIMEOUT` (no verdict: error messages of nested
     `||` folds grow exponentially in the unchanged code, some inputs take minutes)"""
@@ -50,7 +51,7 @@ def run_one(src: str, runner: str, bindings: Dict[str, Any], package: Optional[s
     old = signal.signal(signal.SIGALRM, _on_alarm)
     signal.setitimer(signal.ITIMER_REAL, EVAL_TIMEOUT_S)
     try:
-        return _run_one(src, runner, bindings, package)
+        return _run_one(src, runner, bindings, package, annots)
     except _Timeout:
         return "TIMEOUT"
     finally:
@@ -58,11 +59,14 @@ def run_one(src: str, runner: str, bindings: Dict[str, Any], package: Optional[s
         signal.signal(signal.SIGALRM, old)
 
 
-def _run_one(src: str, runner: str, bindings: Dict[str, Any], package: Optional[str]) -> str:
+def _run_one(src: str, runner: str, bindings: Dict[str, Any], package: Optional[str],
+             annots: Optional[Dict[str, Any]] = None) -> str:
     import celpy
     from celpy.evaluation import CELEvalError
     try:
-        env = celpy.Environment(package=package, runner_class=celrun.RUNNERS[runner])
+        # (Environment adds its own entries to the annotations mapping it is given: always a fresh dict)
+        env = celpy.Environment(package=package, annotations=dict(annots) if annots else None,
+                                runner_class=celrun.RUNNERS[runner])
         try:
             ast = env.compile(src)
         except celpy.CELParseError:
@@ -499,6 +503,9 @@ class C03(Prop):
             "Round 3: field selection on every kind of container (map variable, literal, nested, list element, JSON-converted, "
             "dyn, ?:, message, namespace of dotted names) x every kind of member value (null, false, 0, 0u, 0.0, NaN, '', b'', [], "
             "{}, zero duration, epoch, ordinary ones, missing) x 22 contexts. "
+            "Round 4: activations whose names overlap (a bound name that is a proper dotted prefix of another bound name: value + "
+            "namespace on one identifier, both insertion orders, one level down, under a package; map values holding the competing "
+            "member), with annotations for the name / a longer name / a sibling and a container, every name referenced at every length. "
             "non-trivial = distinct expression "
             "containing a short-circuit operator, macro or has(), or with an error outcome on either runner")
 
@@ -541,6 +548,8 @@ class C03(Prop):
         cases += hist_cases(rng, quick)
         # (d5) member access: every container kind x every kind of member value (null / false / zero / empty / missing)
         cases += select_cases(rng, quick)
+        # (d6) overlapping names: every shape of the Referent an identifier resolves to (annotation / value / namespace)
+        cases += overlap_cases(rng, quick)
         # (e) primitives on the model's pool (driver fidelity + laws)
         prims = []
         for op, (_fn, ar) in PRIM_OPS.items():
@@ -566,7 +575,9 @@ class C03(Prop):
         if b == "std":
             bd = std_bindings()
         else:
-            bd = {k: _eval_ctor(v) for k, v in (b or {}).items()}
+            # `bind_order`: the insertion order of the activation (replays are written with sorted keys)
+            order = c.get("bind_order") or list(b or {})
+            bd = {k: _eval_ctor((b or {})[k]) for k in order}
         return c["src"], bd, c.get("package")
 
     def _ast(self, c):
@@ -595,9 +606,10 @@ class C03(Prop):
             c["_impl"] = out
             return out
         src, bd, pkg = self._src_binds(c)
+        an = {n: _eval_ctor(t) for n, t in (c.get("annots") or {}).items()} if c["kind"] == "text" else None
         with mem_cap():
-            i = run_one(src, "I", bd, pkg)
-            k = run_one(src, "C", bd, pkg)
+            i = run_one(src, "I", bd, pkg, an)
+            k = run_one(src, "C", bd, pkg, an)
         out = f"I={i} || C={k}"
         c["_impl"] = out
         return out
@@ -1212,6 +1224,76 @@ def select_cases(rng: random.Random, quick: bool) -> List[Dict[str, Any]]:
             for t in tmpls:
                 src = t.replace("@M", m).replace("@F", f)
                 out.append({"kind": "text", "src": src, "binds": dict(binds), "package": None, "stream": f"select:{cname}:{f}"})
+    return out
+
+# ------------------------------------------------------------------------------------------
+# overlapping names (round 4): an identifier is resolved twice — the interpreter calls Activation.resolve_variable, the
+# transpiled text `activation.<x>` / `activation.get('<x>')` calls Activation.__getattr__; members of a namespace go
+# through member_dot vs. NameContainer.get.  Both end in a `Referent` with three independent slots: an annotation, a
+# value, and a nested namespace (the dotted names below it); the longest-name rule prefers the namespace.  With
+# activations that bind unrelated names every Referent is "value only", where any reading of the slots agrees.  So
+# the SHAPE of the Referent is generated: names that are proper dotted prefixes of other bound names (value +
+# namespace, either insertion order, at the head and one level down, under a package), a map value that has the
+# competing member itself, annotations for the name / a longer name / a sibling, the container (package) of the
+# Environment — and every name is referenced at every length, in plain and absorbing contexts.
+# ------------------------------------------------------------------------------------------
+
+def _ov_map(**kw: str) -> str:
+    return _CT + "MapType({" + ", ".join(f"{_CT}StringType('{k}'): {v}" for k, v in kw.items()) + "})"
+
+
+def _ov_int(n: int) -> str:
+    return f"{_CT}IntType({n})"
+
+
+OVERLAP_VALUES: Dict[str, List[str]] = {
+    "a": [_ov_int(7), _ov_map(b=_ov_int(20), d=_ov_int(21)), _ov_map(b=_ov_map(c=_ov_int(22))), "None"],
+    "a.b": [_ov_int(1), _ov_map(c=_ov_int(30), d=_ov_int(31))],
+    "a.b.c": [_ov_int(4)],
+    "a.d": [_ov_int(5)],
+    "p.a": [_ov_int(8), _ov_map(b=_ov_int(40))],
+    "p.a.b": [_ov_int(9)],
+}
+# pairs (shorter, longer) of names where the shorter is a proper dotted prefix of the longer
+OVERLAP_PAIRS = [(s, l) for s in OVERLAP_VALUES for l in OVERLAP_VALUES if l.startswith(s + ".")]
+OVERLAP_REFS = ["a", "a.b", "a.b.c", "a.d", "a.b.d", "a.z", "p.a", "p.a.b", ".a.b"]
+OVERLAP_CONTEXTS = ["@", "@", "[1].map(x, @)", "[@, 0]", "@ == 1 || true", "true || @ == 1", "@ == 1 || false", "{'k': @}",
+                    "@ == 4 ? 'y' : 'n'", "size([@])", "dyn(@)", "[1, 2].exists(x, @ == x)", "@ + 1", "type(@)"]
+OVERLAP_ANNOTS: List[Dict[str, str]] = [{}, {}, {"a": _CT + "IntType"}, {"a.b": _CT + "IntType"}, {"a.q": _CT + "IntType"},
+                                        {"a": _CT + "MapType", "a.b.c": _CT + "IntType"}]
+OVERLAP_PACKAGES = [None, None, None, "p", "a", "p.a"]
+
+
+def _overlap_case(src: str, items: List[Any], annots: Dict[str, str], package: Optional[str], tag: str) -> Dict[str, Any]:
+    c: Dict[str, Any] = {"kind": "text", "src": src, "binds": dict(items), "bind_order": [n for n, _v in items],
+                         "package": package, "stream": "overlap:" + tag}
+    if annots:
+        c["annots"] = dict(annots)
+    return c
+
+
+def overlap_cases(rng: random.Random, quick: bool) -> List[Dict[str, Any]]:
+    out = []
+    # (1) every prefix pair x every choice of values x both insertion orders (optionally with a third name):
+    #     the longer name, the shorter name, and sampled other references / contexts
+    for short, long_ in OVERLAP_PAIRS:
+        for vs, vl in itertools.product(OVERLAP_VALUES[short], OVERLAP_VALUES[long_]):
+            for rev in (False, True):
+                items = [(short, vs), (long_, vl)]
+                if rev:
+                    items.reverse()
+                refs = [long_, short] + (rng.sample(OVERLAP_REFS, 2) if quick else OVERLAP_REFS)
+                for n, ref in enumerate(refs):
+                    ctxs = ["@"] if (quick and n < 2) else ([rng.choice(OVERLAP_CONTEXTS)] if quick else OVERLAP_CONTEXTS[1:])
+                    for ctx in ctxs:
+                        out.append(_overlap_case(ctx.replace("@", ref), items, {}, None, f"{short}+{long_}"))
+    # (2) random shapes: 1-4 bound names, any order, annotations, package
+    names = list(OVERLAP_VALUES)
+    for _ in range(220 if quick else 12000):
+        sub = rng.sample(names, rng.choice([1, 2, 2, 3, 3, 4]))
+        items = [(n, rng.choice(OVERLAP_VALUES[n])) for n in sub]
+        out.append(_overlap_case(rng.choice(OVERLAP_CONTEXTS).replace("@", rng.choice(OVERLAP_REFS)), items,
+                                 rng.choice(OVERLAP_ANNOTS), rng.choice(OVERLAP_PACKAGES), "random"))
     return out
 
 
